@@ -341,6 +341,42 @@ Section Regex.
     - subst s. cbn [length]. rewrite !app_length. lia.
   Qed.
 
+
+  (* What the stream is, relationally: the successive leftmost matches of the remaining text, each
+     non-empty, each searched from the end of the previous one; the stream ENDS at the first failed
+     search or the first EMPTY match (tokens are a prefix of the non-empty matches -- as coded). *)
+  Inductive regex_chain : list cp -> list cp -> list token -> Prop :=
+  | rc_none pre s : find s = None -> regex_chain pre s []
+  | rc_empty pre s a : find s = Some (a, a) -> regex_chain pre s []
+  | rc_step pre s x m y tk ts :
+      s = x ++ m ++ y -> find s = Some (blen x, blen x + blen m) -> m <> [] ->
+      t_from tk = blen pre + blen x -> t_to tk = blen pre + blen x + blen m -> t_text tk = m ->
+      regex_chain (pre ++ x ++ m) y ts -> regex_chain pre s (tk :: ts).
+
+  Lemma regex_loop_chain : forall fuel s pre cursor pos ts,
+    cursor = blen pre -> regex_loop fuel s cursor pos = Some ts -> regex_chain pre s ts.
+  Proof.
+    induction fuel as [|fuel IH]; intros s pre cursor pos ts Hc H; cbn [regex_loop] in H; [discriminate|].
+    destruct (find s) as [[a b]|] eqn:Ef.
+    2:{ injection H as <-. apply rc_none. exact Ef. }
+    destruct (find_ok _ _ _ Ef) as (m & Hm).
+    pose proof Hm as Hm'. apply slice_cp_spec in Hm'. rewrite Hm' in H.
+    destruct Hm as (x & y & Hs & Ha & Hb).
+    assert (Hd : drop_bytes s b = Some y).
+    { subst s b. rewrite app_assoc, <- blen_app. apply drop_bytes_app. }
+    rewrite Hd in H. destruct (N.eqb_spec (blen m) 0) as [E0|N0].
+    { injection H as <-. apply (rc_empty pre s a). rewrite Ef. f_equal. f_equal. lia. }
+    destruct (regex_loop fuel y (cursor + b) (next_pos pos)) as [ts'|] eqn:El; [|discriminate].
+    injection H as <-.
+    eapply (rc_step pre s x m y); try eassumption; cbn [t_from t_to t_text]; try (subst; lia); try reflexivity.
+    - rewrite Ef. subst. reflexivity.
+    - intros ->. cbn [blen] in N0. lia.
+    - eapply IH; [|exact El]. subst. rewrite !blen_app. lia.
+  Qed.
+
+  Theorem regex_tokenizer_chain text ts : regex_tokenizer text = Some ts -> regex_chain [] text ts.
+  Proof. unfold regex_tokenizer. apply regex_loop_chain. reflexivity. Qed.
+
   Lemma regex_loop_fuel : forall fuel s cursor pos, (length s < fuel)%nat -> regex_loop fuel s cursor pos <> None.
   Proof.
     induction fuel as [|fuel IH]; intros s cursor pos Hf; [lia|]. cbn [regex_loop].
